@@ -909,6 +909,19 @@ func (c *ExprCtx) call(x *ast.CallExpr) TV {
 			t = app("u_cons", ft, t)
 		}
 		return TV{V: VOpaque{T: t}}
+	case "encarg":
+		// encarg(v): what an encoder encodes for argument v (an interface): the
+		// pointee / value inside it when known on this path, else v's identity
+		a := c.eval(x.Args[0])
+		if iv, ok := a.V.(VIface); ok && iv.Val != nil {
+			if p, ok := iv.Val.(VPtr); ok {
+				if v := c.w.load(c.st, p); v != nil {
+					return TV{V: VOpaque{T: c.w.fold(c.st, v)}}
+				}
+			}
+			return TV{V: VOpaque{T: c.w.fold(c.st, iv.Val)}}
+		}
+		return TV{V: VOpaque{T: c.w.fold(c.st, a.V)}}
 	case "ud":
 		// ud(x): fold of x, through one pointer (an encoder encodes the pointee)
 		a := c.eval(x.Args[0])
